@@ -30,7 +30,19 @@ TPipeReject ==
          \cup Flg(R.status = "exited:0" /\ R.what = "forbidden" /\ R.r.class # "panic", "wrong_outcome_class")
          \cup Flg(R.status = "exited:0" /\ R.what # "forbidden" /\ R.r.class # "err", "wrong_outcome_class")
 
-TraceSpec == TInit /\ [][TPipe \/ TPipeReject]_tvars
+\* The iterators wake their own self-pipe (backend.rs wake_readers): a blocking UnixStream pair.
+TIterPipe ==
+    /\ l <= Len(Rec) /\ R.e = "iter_pipe" /\ l' = l + 1
+    /\ IF R.status # "exited:0"
+       THEN viol' = viol \cup Flg(R.status = "signaled:14", "delivery_blocked_on_the_iterator_pipe")
+                         \cup Flg(R.status # "signaled:14", "probe_died")
+       ELSE viol' = viol
+              \cup Flg(R.r.tokens # <<"delivered">>, "deliveries_did_not_return")
+              \cup Flg(R.r.got > R.burst, "more_bytes_than_deliveries")
+              \cup Flg(R.fill = "empty" /\ R.r.got # R.burst, "not_one_byte_per_delivery")
+              \cup Flg(R.r.yielded # 1, "delivered_signal_not_reported")
+
+TraceSpec == TInit /\ [][TPipe \/ TPipeReject \/ TIterPipe]_tvars
 TraceAccepted ==
     LET d == TLCGet("stats").diameter IN
     IF d - 1 = Len(Rec) THEN TRUE ELSE Print(<<"TRACE_REJECTED", d, Rec[d]>>, FALSE)
